@@ -321,3 +321,13 @@ package promapi
 //@   requires urlParses(prom.unsafeURI)
 //@   assumed requires
 //@   safe nil-deref:Path
+
+// C13 (decode side): the decoder fills `sample` in place for every element of "result" and then calls this commit
+// function; encoding/json merges object keys into an existing map, so the series handed to AppendSampleToRanges are
+// the server's only if the commit leaves an empty label map behind for the next element.
+//@ func streamSampleStream$5 [C13]
+// (that the server's samples are at least one step apart and that it sends every series once are facts about the
+// response, not about this code: the callee's preconditions are assumed here, A15)
+//@   assumed callee-requires promapi.AppendSampleToRanges
+//@   ensures forall k model.LabelName :: !has(sample.Metric, k)
+//@   ensures len(sample.Values) == 0
